@@ -357,6 +357,10 @@ func checkCmd(opts *RunOpts, args []string) int {
 				if inLedger && (le.Status == "proved") {
 					rp := writeReplay(opts, prop, ob, run)
 					suffix := " no-failing-input-found"
+					if ob.Kind == "ground" && ob.Status == "refuted" {
+						// decided exactly on the extracted constant: the constant is the failing input
+						suffix = ""
+					}
 					violations = append(violations, fmt.Sprintf("VIOLATION property=%s replay=%s obligation=%s status=%s%s", prop, rp, ob.Name, ob.Status, suffix))
 					samples = append(samples, map[string]any{"obligation": ob.Name, "verdict": "violation", "status": ob.Status})
 				} else {
@@ -492,7 +496,11 @@ func writeReplay(opts *RunOpts, prop string, ob *Obl, run *Run) string {
 	var b strings.Builder
 	fmt.Fprintf(&b, "property: %s\nobligation: %s\nkind: %s\nfunction: %s\nsource: %s\nclause: %s\n", prop, ob.Name, ob.Kind, ob.Func, ob.Pos, ob.Text)
 	fmt.Fprintf(&b, "status: %s (this obligation is recorded as proved in baseline/ledger.json)\nsolver: %s %.2fs\n", ob.Status, ob.Solver, ob.Seconds)
-	fmt.Fprintf(&b, "failing-input: none (no-failing-input-found)\n")
+	if ob.Kind == "ground" && ob.Status == "refuted" {
+		fmt.Fprintf(&b, "failing-input: the schema constant extracted from the working tree (see output below); replay: /verif/check %s quick re-extracts and re-evaluates it\n", prop)
+	} else {
+		fmt.Fprintf(&b, "failing-input: none (no-failing-input-found)\n")
+	}
 	fmt.Fprintf(&b, "--- solver output ---\n%s\n", firstLines(ob.Output, 200))
 	if ob.File != "" {
 		if q, err := os.ReadFile(ob.File); err == nil {
